@@ -58,7 +58,7 @@ func fnv(s string, h uint64) uint64 {
 
 // one executes a single world in a fresh bubble.
 func one(info *scen.Info, prop, tier string, run int64, ch *simrt.Chooser, trace int) *scen.Result {
-	res := &scen.Result{Prop: prop, Run: run}
+	res := &scen.Result{Prop: prop, Run: run, ProcMode: scen.ProcMode}
 	ctx := &scen.Ctx{Prop: prop, Tier: tier, Run: run, Ch: ch, R: res, Trace: trace}
 	stream := simrand.NewStream(0)
 	leak := simrt.Bubble(func() {
@@ -219,6 +219,9 @@ func minimise(info *scen.Info, prop, tier string, run int64, tape []uint32, clas
 }
 
 func main() {
+	if v, err := strconv.Atoi(os.Getenv("VERIF_PROCMODE")); err == nil {
+		scen.ProcMode = v
+	}
 	prop := os.Getenv("VERIF_PROP")
 	tier := os.Getenv("VERIF_TIER")
 	if tier == "" {
